@@ -110,7 +110,7 @@ func outboundDirect(t *testing.T, r *ev.Run) {
 						r.Case(fmt.Sprintf("direct/%v/%s/%s", strict, via, cl.Class), true)
 						r.Count("outbound_direct_cases", 1)
 						evaluateOutbound(r, "direct", strict, p, map[string]any{"probe": p, "strictmode": strict, "cache": cache})
-						if sampledDirect < 2 && strings.Contains(cl.Class, "-to-http") && method == http.MethodGet {
+						if sampledDirect < 2 && cl.Class == "https-2hops-to-http" && method == http.MethodGet && (sampledDirect == 0) == strict {
 							sampledDirect++
 							r.Sample(map[string]any{"outcome": "outbound", "strictmode": strict, "via": via, "class": cl.Class, "url": target, "error": p.Err, "requests_that_left_the_client": p.Attempts})
 						}
